@@ -778,6 +778,114 @@ fn thread_run(nthreads: usize, ops_per_thread: u64, nnames: usize, desired: usiz
 
 // ---------------------------------------------------------------------------
 
+/// C05, resolver leg: a recursive resolution against a generated universe at virtual time t0, the same
+/// question again a little later (must come from the cache: no upstream exchange, TTLs reduced, never above
+/// what is left), and again after the shortest TTL of the answer has elapsed (must be fetched again).
+fn resolver_leg(rng: &mut Rng, sim: &mut verif_harness::netsim::Sim, sh: &mut Shard) {
+    use dns_resolver::util::types::ProtocolMode;
+    use verif_harness::netsim::{encode, reply_to, Action, Ctx, Mode, Responder};
+    use verif_harness::universe::{self, GenCfg};
+    let cfg = GenCfg {
+        max_depth: rng.range(1, 3),
+        max_zones: rng.range(2, 6),
+        v4_only: 4,
+        v6_only: 0,
+        allow_glueless: rng.bool(),
+        cname_chains: rng.below(3),
+    };
+    let u = Arc::new(universe::generate(rng, &cfg));
+    let mut zones = dns_types::zones::types::Zones::new();
+    zones.insert(u.hints_zone());
+    let cache = SharedCache::new();
+    let mode = Mode::recursive(ProtocolMode::OnlyV4, 53);
+    let responder = |u: Arc<universe::Universe>| -> Responder {
+        Box::new(move |ctx: &Ctx| {
+            let Some(req) = ctx.request else { return (Action::Fail, "bad".into()) };
+            let r = u.serve(ctx.addr.ip(), &req.questions[0]);
+            (Action::Reply(encode(&reply_to(req, r.rcode, r.aa, r.answers, r.authority, r.additional))), r.kind.to_string())
+        })
+    };
+    let Some(q) = universe::questions(rng, &u, 6).into_iter().find(|q| {
+        let e = u.expected(&q.name, q.qtype);
+        // nothing the local hints zone answers by itself (its records do not age)
+        let local = |n: &DomainName| n.is_root() || u.host_by_name(n).is_some_and(|h| u.zones[0].ns_hosts.contains(&h));
+        // direct answers only: alias chains and name-server hosts are re-learnt piecemeal (glue re-insertion restarts a lifetime)
+        !e.finals.is_empty() && e.chain.is_empty() && u.host_by_name(&q.name).is_none() && !e.finals.iter().any(|r| local(&r.name))
+    }) else {
+        return;
+    };
+    let want = u.expected(&q.name, q.qtype);
+    let mut now: u64 = 10 * SEC;
+    verif_clock::set_thread_nanos(Some(now));
+    sh.eval();
+    let first = sim.resolve(responder(u.clone()), &mode, &zones, &cache, &q);
+    let replay = |stage: &str, detail: String| json!({"kind": "resolver-cache-leg", "stage": stage, "question": question_json(&q), "universe": u.describe(), "detail": detail});
+    let Ok(Ok(r1)) = &first.result else {
+        sh.count("resolver-leg:first-resolution-failed(see C07)", 1);
+        return;
+    };
+    let rrs1 = r1.clone().rrs();
+    if first.log.is_empty() || rrs1.is_empty() {
+        return;
+    }
+    let min_ttl = want.chain.iter().chain(want.finals.iter()).map(|r| r.ttl).min().unwrap_or(60);
+    // a little later: from the cache, with reduced TTLs
+    let d1 = rng.range(1, (min_ttl - 1).max(1) as usize) as u64;
+    now += d1 * SEC + rng.below(900) as u64 * 1_000_000;
+    verif_clock::set_thread_nanos(Some(now));
+    sh.eval();
+    let second = sim.resolve(responder(u.clone()), &mode, &zones, &cache, &q);
+    match &second.result {
+        Ok(Ok(r2)) => {
+            let rrs2 = r2.clone().rrs();
+            if !second.log.is_empty() {
+                // in its last partial second the entry is no longer served (T3) and was fetched again: the lifetime restarted
+                sh.count("resolver-leg:second-ask-went-upstream", 1);
+                return;
+            } else {
+                sh.nontrivial(fnv_mix(verif_harness::rng::fnv(show_name(&q.name).as_bytes()), d1));
+                sh.count("resolver-leg:served-from-cache-with-reduced-ttl", 1);
+                for r in &rrs2 {
+                    let Some(orig) = want.chain.iter().chain(want.finals.iter()).find(|w| w.name == r.name && w.rtype_with_data == r.rtype_with_data) else {
+                        sh.violation("C05:resolver:cached-answer-holds-unknown-record", show_rr(r), replay("second", format!("after {d1} s")));
+                        return;
+                    };
+                    let elapsed_ns = now - 10 * SEC;
+                    let left_ns = (u64::from(orig.ttl) * SEC).saturating_sub(elapsed_ns);
+                    if u64::from(r.ttl) * SEC > left_ns {
+                        sh.violation(
+                            "C05:resolver:ttl-of-cached-answer-exceeds-time-left",
+                            format!("{} served {} s after it was learnt with ttl {}", show_rr(r), elapsed_ns / SEC, orig.ttl),
+                            replay("second", format!("elapsed {elapsed_ns} ns")),
+                        );
+                        return;
+                    }
+                }
+            }
+        }
+        _ => sh.count("resolver-leg:second-resolution-failed", 1),
+    }
+    // after the shortest TTL has run out: the expired record must not be served; the resolver has to ask again
+    // (after the *longest* TTL of the RRset: generated RRsets may mix TTLs, and the part still alive is legitimately served)
+    let max_ttl = want.finals.iter().map(|r| r.ttl).max().unwrap_or(min_ttl);
+    now = 10 * SEC + u64::from(max_ttl) * SEC + rng.below(3) as u64 * SEC;
+    verif_clock::set_thread_nanos(Some(now));
+    sh.eval();
+    let third = sim.resolve(responder(u.clone()), &mode, &zones, &cache, &q);
+    if let Ok(Ok(r3)) = &third.result {
+        let rrs3 = r3.clone().rrs();
+        if third.log.is_empty() && !rrs3.is_empty() {
+            sh.violation(
+                "C05:resolver:answer-served-from-cache-after-its-ttl-elapsed",
+                format!("no upstream exchange {} s after the answer (longest ttl {max_ttl}) was learnt", (now - 10 * SEC) / SEC),
+                replay("third", format!("answer {}", serde_json::to_string(&rrs_json(&rrs3)).unwrap_or_default())),
+            );
+            return;
+        }
+        sh.count("resolver-leg:refetched-after-expiry", 1);
+    }
+}
+
 fn engine(args: Args) {
     quiet_panics();
     let prop = args.prop.clone();
@@ -861,6 +969,19 @@ fn engine(args: Args) {
         verif_clock::set_thread_nanos(None);
     });
 
+    if prop == "C05" {
+        // resolver leg: what the resolver learnt from upstream is served from the cache with a reduced TTL before
+        // it expires, and fetched again afterwards
+        let n_univ = args.size(3_000, 150_000);
+        run.parallel(THREADS, 2 << 20, |ti, sh| {
+            let mut rng = Rng::new(seed).fork(0x05e5 + ti as u64);
+            let mut sim = verif_harness::netsim::Sim::new();
+            for _ in 0..(n_univ / THREADS as u64) {
+                resolver_leg(&mut rng, &mut sim, sh);
+            }
+            verif_clock::set_thread_nanos(None);
+        });
+    }
     if prop == "C15" {
         // thread leg (sequential runs, each internally parallel)
         let mut sh = Shard::new();
